@@ -25,16 +25,19 @@ ERR = {"ValueError": "EValue", "ZeroDivisionError": "EZeroDiv", "TypeError": "ET
 PREFIXES = ["", "p_", "x.", "ab", "pt"]
 SUFFIXES = [".pt", "", ".x", "_s.pt", "ab"]
 THEOREMS = {
-    "ali": ["c17_rle_decode_encode", "c17_rle_encode_decode", "c17_ali_dir_roundtrip", "c17_effects_schedule_invariant"],
-    "ref2ali": ["c17_ali_of_ref_accepts_iff_partition"],
-    "trn": ["c17_trn_dir_roundtrip", "c17_select_written", "c17_effects_schedule_invariant"],
-    "ctm": ["c17_timed_dir_roundtrip", "c17_select_written"],
-    "tg": ["c17_select_written", "c17_effects_schedule_invariant"],
-    "er": ["c17_er_total_is_spec", "c17_er_batch_size_irrelevant", "c17_lev_rename_invariant"],
-    "subset": ["c17_subset_is_filter", "c17_subset_schedule_invariant"],
+    "ali": ["c17_rle_decode_encode", "c17_rle_encode_decode", "c17_ali_of_ref_of_ali", "c17_ali_dir_roundtrip",
+            "c17_effects_schedule_invariant", "c17_select_written"],
+    "ref2ali": ["c17_ali_of_ref_accepts_iff_partition", "c17_ali_of_ref_result"],
+    "trn": ["c17_trn_dir_roundtrip", "c17_select_written", "c17_effects_schedule_invariant", "c17_save_transcript_is_write"],
+    "ctm": ["c17_timed_dir_roundtrip", "c17_select_written", "c17_save_transcript_is_write"],
+    "tg": ["c17_timed_dir_roundtrip", "c17_select_written", "c17_effects_schedule_invariant"],
+    "er": ["c17_er_total_is_spec", "c17_er_batch_size_irrelevant", "c17_lev_rename_invariant", "c17_ids_are_filtered_numbering",
+           "c17_pairs_are_aligned"],
+    "subset": ["c17_subset_is_filter"],
     "mom_ali": ["c17_moments_pooled", "c17_moments_schedule_invariant"],
-    "mom_ref": ["c17_moments_pooled", "c17_moments_schedule_invariant"],
-    "mvn": ["c17_mvn_pooled"],
+    "mom_ref": [],
+    "mvn": [],
+    "chunk": [],
 }
 
 
@@ -769,6 +772,14 @@ def x_ctm(chk, sc, case):
             got = None
             impl2 = cout(res2["exc"], "")
         terms.append(("dir->ctm", f"check_transcripts_tol ({model2}) {impl2}" if impl2 else "false"))
+        # the same directory (it has real boundaries) to trn: the times must be stripped
+        trn3 = os.path.join(root, "out.trn")
+        res3 = run_cmd("torch_token_data_dir_to_trn", [d, i2t, trn3] + fix_args(case) + ["--num-workers", 0]
+                       + (["--swap"] if case["back_swap"] else []), None, capture=["write_trn"])
+        got3 = res3["calls"].get("write_trn", [[None]])[0][0]
+        model3 = f"dir_to_trn {ci2t(items)} {cs(case['pre'])} {cs(case['suf'])} {cdir(src)}"
+        impl3 = cout(None, ctranscripts(got3)) if (res3["exc"] is None and got3 is not None) else cout(res3["exc"], "")
+        terms.append(("timed dir->trn", f"check_transcripts ({model3}) {impl3}" if impl3 else "false"))
         vd = vocab_dict(case["vocab"])
         plain = (case["shape"] == "full" and not case["back_drop"] and case["back_fs"] == case["fs"]
                  and len(set(vd.values())) == len(vd) and all(x[0] in vd for _, tr in case["utts"] for x in tr))
@@ -1424,6 +1435,10 @@ def x_tg(chk, sc, case):
             meta.append(f"TextGrid files read: {sorted(calls)}")
         # back: token directory -> TextGrids, serial and through the pool; then TextGrids -> tokens again
         write_map(i2t, inv_vocab(case["vocab"]), False)
+        anyid = case["vocab"][0][1]
+        extra = {"zz_other" + suf: {"w": 3, "rows": [[anyid, 0, 2]]}, pre + "x.other": {"w": 3, "rows": [[anyid, 0, 2]]}}
+        write_dir(d, {n: t for n, t in extra.items() if not (n.startswith(pre) and n.endswith(suf))})
+        out = read_dir(d)
         bargs = [d, i2t] + fix_args(case) + ["--quiet"]
         if case["tgsuf"]:
             bargs += ["--textgrid-suffix", case["tgsuf"]]
@@ -1465,7 +1480,8 @@ def x_tg(chk, sc, case):
                 if r2["exc"] is not None:
                     meta.append(f"tokens -> TextGrids -> tokens raised {r2['exc']}")
                 else:
-                    o1, o2 = dict(out), dict(read_dir(d2))
+                    o1 = {n: t for n, t in out if n.startswith(pre) and n.endswith(suf)}
+                    o2 = dict(read_dir(d2))
                     ok = set(o1) == set(o2)
                     for n in o1 if ok else []:
                         r1_, r2_ = o1[n].get("rows", []), o2[n].get("rows", [])
